@@ -3,6 +3,7 @@ package jsonrpc2
 import (
 	"context"
 	"encoding/json"
+	"errors"
 	"fmt"
 	"net"
 	"sync"
@@ -31,6 +32,10 @@ func ServePipe() (*Remote, *Remote) {
 	go client.Serve()
 	return &server, &client
 }
+
+// ErrMalformedResponse is returned by Call when the reply to a request carries
+// neither a result nor an error.
+var ErrMalformedResponse = errors.New("jsonrpc2: malformed response: missing result or error")
 
 // ContextMissingValueError is returned when a context is missing an expected value.
 type ContextMissingValueError struct {
@@ -163,6 +168,10 @@ func (r *Remote) Call(ctx context.Context, result interface{}, method string, pa
 	resp, err := r.receive(ctx, req.ID)
 	if err != nil {
 		return err
+	}
+	if resp.Response == nil {
+		// A reply with our ID but neither a result nor an error.
+		return ErrMalformedResponse
 	}
 	return resp.UnmarshalResult(result)
 }
